@@ -142,7 +142,7 @@ def e2e_runs(ctx, idxs):
         ctx.broken.append(("correspondence: the sx binary does not build from the current tree", out[-1500:]))
         return rows
     ns = "vc16n%d" % os.getpid()
-    tool = os.path.join(verif.ROOT, "harness", "bin", "c16")
+    tool = os.path.join(verif.HBIN, "c16")
     setup = [["ip", "netns", "add", ns],
              ["ip", "-n", ns, "link", "add", "v0", "type", "veth", "peer", "name", "v1"],
              ["ip", "-n", ns, "link", "set", "lo", "up"], ["ip", "-n", ns, "link", "set", "v0", "up"],
@@ -303,7 +303,7 @@ def run(ctx):
         if why and len(ctx.findings) < 3:
             report(ctx, o, why, ctx.seed, n)
     erows = []
-    if os.path.exists(os.path.join(verif.ROOT, "harness", "bin", "c16")):
+    if os.path.exists(os.path.join(verif.HBIN, "c16")):
         erows = e2e_runs(ctx, [ctx.seed % len(E2E)] if quick else list(range(len(E2E))) * 3)
         for o in erows:
             if o.get("err"):
@@ -339,7 +339,7 @@ def run(ctx):
                 ctx.broken.append(("correspondence: script %d (%s): %s" % (o["id"], o["class"], "; ".join(CODES[c] for c in codes)),
                                    json.dumps({k: v for k, v in o.items() if k != "output"})[:900]))
             ctx.cov["traces_validated_against_impl"] += len(part)
-    if ctx.broken and not ctx.findings and os.path.exists(os.path.join(verif.ROOT, "harness", "bin", "c16")):
+    if ctx.broken and not ctx.findings and os.path.exists(os.path.join(verif.HBIN, "c16")):
         for sd in (ctx.seed + 101, ctx.seed + 202):
             ok, _ = ctx.harness_run("c16", ["-out", "search.jsonl", "-seed", sd, "-n", 200, "-par", 8], timeout=900)
             more = ctx.read_jsonl(os.path.join(ctx.work, "search.jsonl")) if ok else []
